@@ -571,6 +571,15 @@ def gen_constraints_and_clauses(ck, run):
                 t.clauses.append(word)
                 run.case("unknown-trailing-word", (word, with_pk, schema), t.ddl(layout=wi % 2), None if with_pk else [t.expected()], _plan(ck, i))
                 i += 1
+    # ALTER TABLE / CREATE INDEX whose target is not defined in the script: the library rejects the script (ValueError); should a
+    # version report something instead, what it reports still has the documented shape
+    for oi, orphan in enumerate(["ALTER TABLE ghost ADD CONSTRAINT fk_g FOREIGN KEY (owner_id) REFERENCES owners (id);", "ALTER TABLE s1.ghost ADD z int;",
+                                 "CREATE INDEX ix_g ON ghost (owner_id);", "ALTER TABLE ghost ADD CONSTRAINT pk_g PRIMARY KEY (id);"]):
+        t = _base_table()
+        for order in (0, 1):
+            script = (t.ddl() + "\n" + orphan) if order else (orphan + "\n" + t.ddl())
+            run.case("orphan-alter-or-index", (oi, order), script, None, _plan(ck, i, extra=["bigquery"]), on_exception="note")
+            i += 1
     for ci, create in enumerate(sorted(set(CREATES))):
         t = _base_table(create=create, schema=[None, "s1"][ci % 2])
         run.case("create-forms", ci, t.ddl(layout=ci % 4), [t.expected()], _plan(ck, ci, "wide"))
